@@ -12,6 +12,7 @@ package main
 //   calls_<name>           the methods of *interp called (or referenced as method values) directly
 //   may_setExecuteConfig   fields written by setExecuteConfig or anything it (transitively) calls
 //   may_run                fields written by executeAll or anything it (transitively) calls
+//   may_setVarByName       fields written by setVarByName (the Vars loop) or anything it calls
 //   writes_elsewhere       every write in every other function (function name, write)
 //   other_writers          functions that write a field but are reachable from none of the above
 //   nil_tested             fields compared with nil somewhere in the package
@@ -636,6 +637,10 @@ func init() {
 		}
 		maySet, reachSet := closure("setExecuteConfig")
 		mayRun, reachRun := closure("executeAll")
+		if st.funcs["setVarByName"] == nil {
+			return "", fmt.Errorf("function setVarByName not found in package interp")
+		}
+		mayVars, _ := closure("setVarByName")
 
 		var sb strings.Builder
 		sb.WriteString("From Coq Require Import String List.\nImport ListNotations.\nOpen Scope string_scope.\n\n")
@@ -683,7 +688,8 @@ func init() {
 			fmt.Fprintf(&sb, "Definition methods_%s : list (string * string) := [%s].\n\n", n, strings.Join(ms, "; "))
 		}
 		fmt.Fprintf(&sb, "Definition may_setExecuteConfig : list string := %s.\n", strList(maySet))
-		fmt.Fprintf(&sb, "Definition may_run : list string := %s.\n\n", strList(mayRun))
+		fmt.Fprintf(&sb, "Definition may_run : list string := %s.\n", strList(mayRun))
+		fmt.Fprintf(&sb, "Definition may_setVarByName : list string := %s.\n\n", strList(mayVars))
 		sb.WriteString("Definition writes_elsewhere : list (string * write) := [\n")
 		var rows []string
 		var others []string
